@@ -384,7 +384,19 @@ class ClassObject(Object, Callable):
     def _cls_attrs(self):
         # type: () -> Names
         names = self.scope.flow.names
-        return {n: names[n] for n in self.scope.locals}  # type: ignore[misc]  # TODO: could be MultiName
+        result = {}
+        for n in self.scope.locals:
+            name = names[n]
+            if type(name) is MultiName:
+                # bound on some paths through the class body only: the other
+                # alternatives (the same name of an enclosing scope or a
+                # builtin, 'undefined') are not attributes of the class
+                own = [it for it in name.valid_names
+                       if getattr(it, 'scope', None) is self.scope]
+                if own:
+                    name = own[0] if len(own) == 1 else MultiName(own)
+            result[n] = name
+        return result  # type: ignore[return-value]
 
     @cached_property
     def bases(self):
